@@ -89,7 +89,7 @@ MenuPanicShut == [m \in {"a", "b", "c"} |-> IF m = "a" THEN MenuPanicShutA ELSE 
 StartPanicShut == [m \in {"a", "b", "c"} |-> IF m = "a" THEN {<<Send("ao", 1), Sched(1)>>, <<RestartC(1)>>, <<PanicC>>, <<SetCatch(1), PanicC>>, <<Sched(1)>>}
                                               ELSE {<<>>, <<Sched(1)>>}]
 (* C14: processing elements; `eat` = index (1-based) of the element that consumes the message *)
-MenuPEA == {<<>>, <<SendEat("ao", 0)>>, <<SendEat("ao", 1), SendEat("ao", 2)>>, <<SchedEat(1, 0), SendEat("ao", 2)>>, <<SchedEat(1, 1)>>, <<SchedEat(0, 2), SchedEat(0, 0)>>}
+MenuPEA == {<<>>, <<SendEat("ao", 10)>>, <<SendEat("ao", 10), SendEat("ao", 2)>>, <<SendEat("ao", 0)>>, <<SendEat("ao", 1), SendEat("ao", 2)>>, <<SchedEat(1, 0), SendEat("ao", 2)>>, <<SchedEat(1, 1)>>, <<SchedEat(0, 2), SchedEat(0, 0)>>, <<SchedEat(1, 10)>>}
 MenuPEB == {<<>>, <<SendEat("bo", 0)>>, <<SendEat("bo", 1)>>, <<SendEat("bo", 2), SchedEat(1, 0)>>}
 MenuPE == [m \in {"a", "b", "c"} |-> IF m = "a" THEN MenuPEA ELSE IF m = "b" THEN MenuPEB ELSE {<<>>}]
 StartPE == [m \in {"a", "b", "c"} |-> IF m = "a" THEN {<<SendEat("ao", 0), SchedEat(1, 1)>>, <<SchedEat(0, 2), SendEat("ao", 1)>>} ELSE {<<>>}]
